@@ -51,6 +51,26 @@ CLAIMED['C03'] = dict(
          'covers transfers and bound insertions.',
     design_ref='3 (C03)')
 
+CLAIMED['C16'] = dict(
+    engine='fpx',
+    technique='AST -> QF_FP (IEEE-754 binary64) translation of '
+              'PhaseShift.transform decided by z3 at full width; '
+              'rounding-error model in linear real arithmetic for the '
+              'inverse; symbolic execution of the real compute/transform '
+              'over the reals for frame and largest-gap placement',
+    text='z3 decides, for all pairs of doubles in [0,1), that the shift '
+         'stays in [0,1) in both directions (a counterexample is a concrete '
+         'pair of doubles replayed with numpy), bounds the round-trip error '
+         'modulo one, and shows for every order of up to 3-4 construction '
+         'points that the largest circular gap is placed across the '
+         'boundary and that non-periodic coordinates are untouched.',
+    design_ref='4 (C16), 2.7',
+    note='Trusted base: z3 (QF_FP and LIRA), the AST translator fpx '
+         '(validated every run against numpy on boundary-directed doubles), '
+         'symx/symnp for the real-arithmetic part. Inputs are finite '
+         'doubles in [0,1); the round trip is bounded through an error '
+         'model (|error| <= 2^-52 per rounding), not bit-exactly.')
+
 NOT_APPLICABLE = {
     'C04': 'statement about the distribution of whole-program outputs over '
            'seed ensembles; no bounded symbolic input space decides it '
